@@ -703,17 +703,17 @@ std::pair<JunctionRef *, ConnRef *> ConnRef::splitAtSegment(
         Point junctionPos = midpoint(m_display_route.at(segmentN - 1),
                 m_display_route.at(segmentN));
 
-        // Create the new junction.
+        // Create the new junction.  (Its constructor adds it to the router.)
         newJunction = new JunctionRef(router(), junctionPos);
-        router()->addJunction(newJunction);
         newJunction->preferOrthogonalDimension(
                 (m_display_route.at(segmentN - 1).x == 
                     m_display_route.at(segmentN).x) ? YDIM : XDIM);
 
         // Create a new connection routing from the junction to the original
         // connector's endpoint.
+        // (m_dst_connend is only set for ends attached to a shape or junction.)
         ConnEnd newConnSrc = ConnEnd(newJunction);
-        ConnEnd newConnDst = *m_dst_connend;
+        ConnEnd newConnDst = endpointConnEnds().second;
         newConn = new ConnRef(router(), newConnSrc, newConnDst);
         
         // Reroute the endpoint of the original connector to attach to the
